@@ -164,5 +164,10 @@ Definition kf_f29 (kind : N) (q : qarg) (names : list str) (before after : val) 
       pairs_eqb (filter (fun p => negb (has_key ks p)) res) (filter (fun p => negb (has_key ks p)) old)
       && forallb (fun k => starts_with_then_tail (values_of k res) (values_of k new) (values_of k old)) ks
       && negb (update_ok ks old new res)
+      (* input side: a key is left with stale old values only if ANOTHER updated key lost old pairs
+         (two or more keys are updated) *)
+      && forallb (fun k => strs_eqb (values_of k res) (values_of k new)
+                           || existsb (fun k1 => negb (str_eqb k1 k)
+                                                 && (length (values_of k1 new) <? length (values_of k1 old))%nat) ks) ks
   | _, _, _, _ => false
   end.
